@@ -701,8 +701,10 @@ M('arnoldi-reorth-keeps-stale-norm', 'C07,C01', 'residual-norm-tracks-residual',
                 // h <- h + Vf
                 h.noalias() += Vf.head(i1);''')], 'norm of the residual before re-orthogonalisation is kept')
 M('arnoldi-compress-forgets-norm', 'C07,C01', 'residual-norm-tracks-residual',
-  [('LinAlg/Arnoldi.h', '''        m_fac_f.swap(fk);
-        m_beta = m_op.norm(m_fac_f);''', '''        m_fac_f.swap(fk);''')], 'after an implicit restart the convergence test uses the old residual norm')
+  [('LinAlg/Arnoldi.h', '''        m_k = 0;
+        m_beta = m_op.norm(m_fac_f);
+        m_k = k;''', '''        m_k = 0;
+        m_k = k;''')], 'after an implicit restart the convergence test uses the old residual norm')
 
 # ----------------------------------------------------------------------------- C13 pointer kernels (dense model)
 M('hessqr-row-update-runs-past-last-column', 'C13', 'pointer-kernel-contracts',
